@@ -52,6 +52,10 @@ fn tagged(rng: &mut Rng, n: usize, tag: u8) -> Vec<u8> {
 }
 
 fn transparency_case(check: &Check, rng: &mut Rng) {
+    // budget guard: every watchdog expiry costs WATCHDOG seconds; stop starting cases after a few
+    if check.counter("watchdog_fired") >= 16 {
+        return;
+    }
     let ka = gen_key(rng.usize(3), rng);
     let kb = gen_key(rng.usize(3), rng);
     let (sa, sb) = if rng.chance(1, 5) { (Sched::smooth(), Sched::smooth()) } else { (Sched::random(rng), Sched::random(rng)) };
@@ -132,7 +136,10 @@ fn transparency_case(check: &Check, rng: &mut Rng) {
     let fut = futures::future::join(side(oa, wa.clone(), reads.clone()), side(ob, wb.clone(), reads.clone()));
     match catch(|| block_on_timeout(fut, WATCHDOG)) {
         Err(p) => check.violation(format!("panic@{}", p.site()), format!("noise io panicked: {}", p.msg), witness()),
-        Ok(None) => check.inconclusive("noise transparency watchdog"),
+        Ok(None) => {
+            check.count("watchdog_fired", 1);
+            check.inconclusive("noise transparency watchdog")
+        }
         Ok(Some((ra, rb))) => {
             for (who, got, want) in [("b-to-a", &ra, &sent_b), ("a-to-b", &rb, &sent_a)] {
                 match got {
@@ -168,6 +175,9 @@ enum Fault {
 /// One fresh session; `dir_a_to_b` chooses which side writes. Frames = plaintext per flush.
 /// `fault.at` is relative to the start of the post-handshake ciphertext of the writing direction.
 fn tamper_session(check: &Check, keys: &(noise::Config, noise::Config), frames: &[Vec<u8>], dir_a_to_b: bool, fault: &Fault) {
+    if check.counter("watchdog_fired") >= 16 {
+        return;
+    }
     let (a, b, a2b, b2a) = pipe(Sched::smooth(), Sched::smooth());
     let hs = match catch(|| handshake(keys.0.clone(), keys.1.clone(), a, b)) {
         Err(p) => return check.violation(format!("panic@{}", p.site()), p.msg.clone(), json!({})),
@@ -214,7 +224,10 @@ fn tamper_session(check: &Check, keys: &(noise::Config, noise::Config), frames: 
     });
     let (got, end) = match res {
         Err(p) => return check.violation(format!("panic@{}", p.site()), format!("noise read panicked: {}", p.msg), witness()),
-        Ok(None) => return check.inconclusive("tamper watchdog"),
+        Ok(None) => {
+            check.count("watchdog_fired", 1);
+            return check.inconclusive("tamper watchdog");
+        }
         Ok(Some(x)) => x,
     };
     // which frame holds the fault
